@@ -12,6 +12,7 @@ import world as W
 from common import substream, loguniform, sha1, OffsetTrack, run_eval, landing
 
 PROPERTY = "C02"
+CASE_TIMEOUT_S = 400
 LEVEL = "fault_enumeration"
 
 PROP_C = 1.0        # simulated work to the stop <= PROP_C * M + PROP_C0
@@ -635,7 +636,9 @@ def execute_b(case):
     M1 = hi
     res["M1"] = M1
     # 3. N iterations under the same limit
-    nbig = case["cell"]["nbig"]
+    # (a body that costs millions of work units per iteration -- nested eval code compiled every
+    # time -- gets fewer iterations: the whole run stays under about 40 M units)
+    nbig = min(case["cell"]["nbig"], max(200, 40_000_000 // max(1, work1)))
     o = ok(M1 + B_HEADROOM, nbig, work1 * nbig * 3 + 500_000)
     res["big_outcome"] = o["kind"]
     res["work"] += o["end_work"] - o["start_work"]
